@@ -155,6 +155,17 @@ def cases(tier, rng):
     for _ in range(10 if quick else 200):
         k = rng.choice([7, 10, 13, 17, 18, 22, 26, 28, 30])
         lines.append("qrecc %d %s" % (k, hx(bytes(rng.randrange(256) for _ in range(rng.randrange(1, 124))))))
+    # blocks whose check codewords begin with one / two zero codewords (a division remainder with leading zero
+    # coefficients: about 2^-8 / 2^-16 of random blocks), engineered with lib/rs_py.py; directly and as whole symbols
+    import rs_py
+    for k in (7, 10, 13, 17, 22, 30):
+        for nz in (1, 2):
+            d = rs_py.engineer(rs_py.QR, rng, rng.randrange(3, 60), k, nz)
+            if d:
+                lines.append("qrecc %d %s" % (k, hx(bytes(d))))
+    for (lvl, c) in rs_py.qr_zero_contents(rng, per=1 if quick else 6):
+        lines.append("qr %d 3 %s" % (lvl, hx(c)))
+        lines.append("qr %d 0 %s" % (lvl, hx(c)))
     for (v, l) in (rows[:6] if quick else rows):
         n = _raw(v) // 8
         lines.append("qrrender %d %d %s" % (v, l, hx(bytes(rng.randrange(256) for _ in range(n)))))
